@@ -390,5 +390,10 @@ def run(rep, db, tier, seed):
                 except Unmodelled as u:
                     rep.add(Obligation(f'view_leader N={N} flags={list(flags)} mode={mode}', 'inconclusive', str(u)))
     rep.extra['violation_classes'] = seen_keys
+    try:
+        from props import c11_kernel
+        c11_kernel.run(rep, db, tier)
+    except Exception as u:
+        rep.add(Obligation('hash-reduction kernel', 'inconclusive', f'{type(u).__name__}: {u}'[:600]))
     rep.extra['explanation'] = ('bounded symbolic execution of the real MIR of Schedule::new / view_leader / leader_weighted_eligibility; for each committee shape every u64 weight, view '
                                 'and frequency is covered by the solver verdicts; outside the claim: N above the bound, statistical uniformity of Keccak')
